@@ -167,4 +167,70 @@ def oneshotParams (quality lgwin : Int) (inputSize : Nat) : Params :=
     catable := false, appendable := false, useDictionary := true, magicNumber := false,
     sizeHint := inputSize % 2 ^ 32 }
 
+/-! ## `WriteMetaBlockInternal`: which representation a meta-block gets (size decision)
+
+literals `[16, 0, 2,3, 7,7, 4,4, 3, 1, 8, 2, 4, 10, 1, 0, 4, 4, 3, 4,4, 1, 8]`: entry 1 the
+`bytes == 0` test, 2‥5 the empty last block, 8 and 18 the `>> 3`, 17 the `4` of
+`bytes + 4 + saved_byte_location < (*storage_ix >> 3)`. -/
+
+def litsWmbi := BV.Gen.lits_WriteMetaBlockInternal
+
+/-- the two things the un-modelled payload coder decides for one meta-block: the verdict of
+`should_compress`, and the bits the compressed attempt (`store_meta_block_fast` /
+`store_meta_block_trivial` / `store_meta_block`) appended behind the storage position —
+an ARBITRARY bit string as far as this model is concerned -/
+structure MbOracle where
+  shouldCompress : Bool
+  attempt : List Bool
+deriving Repr
+
+/-- storage after the call: `body` = up to and including the meta-block that carries the
+data; `fin` = what the function leaves (`body` plus the separate empty last meta-block,
+when one is written) -/
+structure MbOut where
+  body : Writer
+  fin : Writer
+deriving Repr
+
+/-- `WriteMetaBlockInternal(…, bytes = data.length, is_last = actualIsLast, params, …,
+storage_ix = w.length, storage)`: the size decision only.
+
+* `appendable`: the data block is never marked last, a separate empty last block follows;
+  otherwise `assert!(!params.catable)`;
+* `bytes == 0`: bits `1,1`, position rounded up (this IS the empty last block);
+* `!should_compress(…)`: stored (uncompressed) meta-block;
+* else the compressed attempt is written; `saved_byte_location = storage_ix >> 3`,
+  `last_bytes_bits = storage_ix as u8` (!) are remembered, and if afterwards
+  `bytes + 4 + saved_byte_location < (storage_ix >> 3)` the two saved bytes are put back,
+  `storage_ix = last_bytes_bits as usize`, and the data is stored uncompressed instead.
+  The `as u8` makes the rewind land on the old position only for `storage_ix < 256`
+  (`encode_data` calls with at most 7 carry bits plus the ≤ 23-byte head: proved in
+  `BV/Lemmas/HeaderGuard.lean`); for a larger position the code would continue at a wrong
+  bit offset — outside what a bit-string model can express, reported as `fuel`. -/
+def writeMetaBlockInternal (appendable catable actualIsLast : Bool) (data : List Nat) (o : MbOracle)
+    (w : Writer) : Out MbOut :=
+  let isLast := if appendable then false else actualIsLast
+  if !appendable && catable then panic else
+  if data.length = lit litsWmbi 1 then
+    (writeBits (lit litsWmbi 2) (lit litsWmbi 3) w).bind fun w1 =>
+    ok { body := w, fin := jumpToByteBoundary w1 }
+  else
+    let close (b : Writer) : Out MbOut :=
+      if actualIsLast != isLast then (writeEmptyLastMetaBlock b).bind fun f => ok { body := b, fin := f }
+      else ok { body := b, fin := b }
+    /- `store_uncompressed_meta_block(is_last, …)` (with `is_last` it ends with bits `1,1` and
+       padding); `body` is the position behind the payload bytes, i.e. the same call without them -/
+    let stored (w0 : Writer) : Out MbOut :=
+      (storeUncompressedMetaBlock false data w0).bind fun b =>
+      (storeUncompressedMetaBlock isLast data w0).bind fun f =>
+      if isLast then ok { body := b, fin := f } else close f
+    if !o.shouldCompress then stored w
+    else
+      let savedByteLocation := w.length >>> lit litsWmbi 8
+      let lastBytesBits := w.length % 256
+      let w1 := w ++ o.attempt
+      if data.length + lit litsWmbi 17 + savedByteLocation < w1.length >>> lit litsWmbi 18 then
+        if lastBytesBits ≠ w.length then fuel else stored w
+      else close w1
+
 end BV.Stored
